@@ -22,6 +22,8 @@ func main() {
 		os.Exit(cmdCheck(os.Args[2:]))
 	case "replay":
 		os.Exit(cmdReplay(os.Args[2:]))
+	case "sweep":
+		os.Exit(cmdSweep(os.Args[2:]))
 	default:
 		fmt.Fprintln(os.Stderr, "unknown command")
 		os.Exit(2)
@@ -458,4 +460,102 @@ func scenarioFor(eng *Engine, obl string) string {
 		}
 	}
 	return ""
+}
+
+// cmdSweep: zero-annotation safety sweep. Every function of the given packages that has no contract gets the
+// trivial one (no requires, ensures true, modifies everything, no declared panics) and is checked in the strict
+// regime: every runtime panic (nil, bounds, slice range, division, type assertion) and every explicit panic
+// reachable for well-typed arguments is listed. Loops without invariants are havocked. Output is a candidate
+// list for triage, not a verdict.
+func cmdSweep(argv []string) int {
+	fs := flag.NewFlagSet("sweep", flag.ExitOnError)
+	repo := fs.String("repo", "/repo", "repository root")
+	spec := fs.String("spec", "/verif/spec", "spec directory")
+	pkgs := fs.String("pkgs", "", "comma separated package paths relative to the module")
+	fnre := fs.String("fn", "", "only functions matching this regexp")
+	timeoutS := fs.Int("timeout", 5, "solver timeout")
+	fs.Parse(argv)
+	var patterns []string
+	for _, p := range strings.Split(*pkgs, ",") {
+		patterns = append(patterns, repoMod+"/"+strings.TrimSpace(p))
+	}
+	eng, err := newEngine(*repo, *spec, patterns)
+	if err != nil {
+		fmt.Fprintln(os.Stderr, "load:", err)
+		return 2
+	}
+	eng.sweep = true
+	var re *regexp.Regexp
+	if *fnre != "" {
+		re = regexp.MustCompile(*fnre)
+	}
+	var keys []string
+	for k, fn := range eng.funcs {
+		if fn.Pkg == nil || len(fn.Blocks) == 0 || fn.Synthetic != "" {
+			continue
+		}
+		in := false
+		for _, p := range patterns {
+			if fn.Pkg.Pkg.Path() == p {
+				in = true
+			}
+		}
+		if !in || eng.contracts[k] != nil || eng.contracts[k+"@value"] != nil || strings.Contains(k, "$") || strings.HasSuffix(k, ".init") {
+			continue
+		}
+		if re != nil && !re.MatchString(k) {
+			continue
+		}
+		keys = append(keys, k)
+	}
+	sort.Strings(keys)
+	tmp, _ := os.MkdirTemp("", "govcsweep")
+	defer os.RemoveAll(tmp)
+	for _, k := range keys {
+		fn := eng.funcs[k]
+		c := &Contract{Key: k, Pkg: fn.Pkg.Pkg.Path(), ModAll: true, ModeSet: true, Mode: HeapMode}
+		for i, p := range fn.Params {
+			if i == 0 && fn.Signature.Recv() != nil {
+				c.Recv = p.Name()
+				continue
+			}
+			c.Params = append(c.Params, p.Name())
+		}
+		var vc *VC
+		func() {
+			defer func() {
+				if r := recover(); r != nil {
+					fmt.Printf("SWEEP %s: engine error: %v\n", k, r)
+					vc = nil
+				}
+			}()
+			vc = eng.verifyFunc(fn, c)
+		}()
+		if vc == nil {
+			continue
+		}
+		eng.discharge([]*VC{vc}, runOpts{timeout: time.Duration(*timeoutS) * time.Second, tmpdir: tmp, workers: 8})
+		var bad []string
+		for _, o := range vc.obls {
+			if o.Expect == "sat" || o.Answer == "unsat" {
+				continue
+			}
+			if o.Kind == "safe" || o.Kind == "panic" {
+				bad = append(bad, fmt.Sprintf("%s(%s)", strings.TrimPrefix(o.Name, vc.fnName()+"#"), o.Answer))
+			}
+		}
+		status := "clean"
+		if len(vc.errs) > 0 {
+			status = "untranslatable: " + vc.errs[0]
+		}
+		if len(bad) > 0 {
+			status = strings.Join(bad, " ")
+		}
+		pos := fn.Prog.Fset.Position(fn.Pos())
+		if hasLoops(fn) {
+			status += "   (has loops: havocked without invariants, bounds findings unreliable)"
+		}
+		fmt.Printf("SWEEP %s [%s:%d]: %s\n", k, filepath.Base(pos.Filename), pos.Line, status)
+	}
+	return 0
 }
